@@ -84,6 +84,10 @@ def check_state(conf, hist, G, M):
                                               ('after-last-snapshot' if hi is not None and t > hi else 'inside')},
                                  {'pair': repr((u, v)), 't': t, 'first add': first, 'last snapshot': hi, 'has_interaction': got}))
                     break
+    for t in times:                      # per-instant counts are read-only: asking must not create snapshot ids
+        G.interactions_per_snapshots(t)
+    if list(G.temporal_snapshots_ids()) != ids:
+        trip.append(('ids', {'kind': 'ids-changed-by-a-read-only-query'}, {'before': repr(ids), 'after': repr(G.temporal_snapshots_ids())}))
     st = list(G.stream_interactions())
     ts = [ev[3] for ev in st]
     if any(a > b for a, b in zip(ts, ts[1:])):
@@ -104,6 +108,7 @@ def check_state(conf, hist, G, M):
 
 class Spec(engine.Spec):
     prop = PROP
+    pure_queries = True
 
     def on_transition(self, conf, hist, op, G, M, out, exp):
         return check_transition(conf, hist, op, G, M, out, exp)
